@@ -23,7 +23,11 @@ type simProp struct {
 	// Observe is called after every applied op; it labels the case and decides non-triviality.
 	Observe func(tr *tracker, op *core.Op)
 	// Finish is called at the end of a case that neither failed nor was aborted.
-	Finish func(sim *core.Sim, tr *tracker)
+	Finish func(rt *rapid.T, sim *core.Sim, tr *tracker)
+	// AtEnd runs after all cases (stats still open).
+	AtEnd func(st *core.Stats)
+	// Replay overrides the default replay (apply the ops to a fresh Sim).
+	Replay func(t *testing.T, r *core.Replay, st *core.Stats)
 	// Draw overrides the default op generator (g.Draw); it may return several ops.
 	Draw func(rt *rapid.T, sim *core.Sim, g *core.Gen) []core.Op
 	// Once runs before the generated cases (enumerated parts), in shard 0 only.
@@ -154,12 +158,15 @@ func runSimProp(t *testing.T, p *simProp) {
 				},
 			})
 			if !sim.Done() && p.Finish != nil {
-				p.Finish(sim, tr)
+				p.Finish(rt, sim, tr)
 			}
 			if sim.Aborted {
 				cs.Label("aborted (out of scope)")
 			}
 		})
+		if p.AtEnd != nil {
+			p.AtEnd(st)
+		}
 	})
 }
 
@@ -173,6 +180,10 @@ func replaySim(t *testing.T, path string, p *simProp, st *core.Stats) {
 	}
 	if err := r.Universe.Validate(); err != nil {
 		t.Fatalf("replay: %v", err)
+	}
+	if p.Replay != nil {
+		p.Replay(t, &r, st)
+		return
 	}
 	sim := core.NewSim(t, p.Cfg, r.Universe, st, nil)
 	for _, op := range r.Ops {
